@@ -383,7 +383,7 @@ fn exponents(tier: Tier) -> Vec<i32> {
     }
     v.extend([i32::MIN, i32::MIN + 1, i32::MAX, i32::MAX - 1]);
     if tier == Tier::Quick {
-        v.retain(|n| n.unsigned_abs() <= 64 || n.unsigned_abs().is_power_of_two() || *n == i32::MIN + 1 || *n == i32::MAX || (n.unsigned_abs() + 1).is_power_of_two());
+        v.retain(|n| n.unsigned_abs() <= 20 || [31, 32, 33, 63, 64].contains(&n.unsigned_abs()) || n.unsigned_abs().is_power_of_two() || *n == i32::MIN + 1 || *n == i32::MAX || (n.unsigned_abs() + 1).is_power_of_two());
     }
     v.sort();
     v.dedup();
@@ -752,7 +752,7 @@ fn explore_pair(p: &Pair, func: usize, prop: Prop, tier: Tier, chunk: Option<(us
         }
         let ns = exponents(tier);
         // powi is linear in |n|: give it a budget that lets moderate exponents finish and cuts the rest
-        set_limit(if tier == Tier::Quick { 70_000 } else { 250_000 });
+        set_limit(if tier == Tier::Quick { 30_000 } else { 250_000 });
         for &a in &bases {
             for &n in &ns {
                 let out = powi(a, n);
